@@ -41,7 +41,8 @@ def strategy(draw):
     ops = draw(st.lists(st.sampled_from(OPS), min_size=3, max_size=12))
     if not ops[0].startswith("fit"):
         ops = ["fit0"] + ops
-    return {"cls": cls, "a": base, "b": other, "ops": ops, "pick": draw(st.integers(0, 10_000))}
+    return {"cls": cls, "a": base, "b": other, "ops": ops, "pick": draw(st.integers(0, 10_000)),
+            "wk": draw(st.sampled_from(["none", "none", "full", "partial"]))}  # user weights handed to every fit
 
 
 def snapshot(ad, data, sdims):
@@ -111,6 +112,13 @@ def run_case(desc, ctx):
     built_b = cases.build_case(db)
     sets[2] = (db, built_b["data"], built_b["sdims"], built_b["names"])
     originals = {i: copy.deepcopy(s[1]) for i, s in sets.items()}
+    wk = desc.get("wk", "none")
+    ctx.event(f"weights={wk}")
+    W = {i: None for i in sets}
+    if wk != "none":
+        for i, s_ in sets.items():
+            W[i] = [cases.weights_like(o, s_[2], 11 + i) for o in s_[1]] if wk == "full" else [cases.partial_weights(o, s_[2]) for o in s_[1]]
+    W_orig = copy.deepcopy(W)
     fam = M.family(cls)
     disc = dict(cls=cls)
 
@@ -158,7 +166,7 @@ def run_case(desc, ctx):
     def fresh(i):
         if i not in fresh_cache:
             f = new_adapter()
-            f.fit(copy.deepcopy(originals[i]), sets[i][2])
+            f.fit(copy.deepcopy(originals[i]), sets[i][2], copy.deepcopy(W_orig[i]))
             fresh_cache[i] = snapshot(f, copy.deepcopy(originals[i]), sets[i][2])
         return fresh_cache[i]
 
@@ -178,7 +186,7 @@ def run_case(desc, ctx):
         d = dict(disc, op=op, step=min(step, 3))
         if op.startswith("fit"):
             i = int(op[3])
-            r = call(ctx, "fit_raises", ad.fit, sets[i][1], sets[i][2], disc=d, refuse=(RuntimeError,), refuse_if=lambda e: "did not converge" in str(e))
+            r = call(ctx, "fit_raises", ad.fit, sets[i][1], sets[i][2], W[i], disc=d, refuse=(RuntimeError,), refuse_if=lambda e: "did not converge" in str(e))
             if isinstance(r, Failed):
                 return
             last = i
@@ -241,7 +249,7 @@ def run_case(desc, ctx):
         # ---- a current rotator equals a fresh rotator on a fresh model
         if rot is not None and rot_current:
             fa = new_adapter()
-            fa.fit(copy.deepcopy(originals[last]), sets[last][2])
+            fa.fit(copy.deepcopy(originals[last]), sets[last][2], copy.deepcopy(W_orig[last]))
             fr = type(rot)(n_modes=nrot, power=1)
             try:
                 fr.fit(fa.model)
@@ -259,6 +267,8 @@ def run_case(desc, ctx):
         # ---- user inputs untouched
         for i in sets:
             if not ctx.check(identical(sets[i][1], originals[i]), "input_modified", f"data set {i} was modified by {op}", **d):
+                return
+            if W[i] is not None and not ctx.check(identical(W[i], W_orig[i]), "input_modified", f"the weights of data set {i} were modified by {op}", **dict(d, what="weights")):
                 return
     ctx.event(f"n_fits={min(n_fits, 4)}")
     ctx.event(f"executed_ops={min(executed, 12)}")
